@@ -2,18 +2,5 @@
 
 SOURCE_COMMITS = []  # hook commits in /repo: none (fix: commits are listed in known_findings.json)
 
-CHECKS = {
-    'C19': {
-        'technique': 'Coq proof about the model regenerated from util.cumsum by the py2v translator; exhaustive-on-structure differential run',
-        'text': 'Four theorems (cumsum_correct, cumsum_rejects, cumsum_numpy, cumsum_carry) are proved in Coq for every input '
-                'length, flag pair, offset and initial output content about the Gallina function that tools/py2v regenerates '
-                'from abacusnbody/util.py on every run, written in a checked-access monad so that Ok also means no out-of-bounds '
-                'access.  The translator is validated on every run by evaluating the generated model (vm_compute) against the '
-                'compiled kernel, the kernel under NUMBA_BOUNDSCHECK=1 and py_func on a structured enumeration.',
-        'note': 'Trusted: Coq kernel, py2v translator (validated by the correspondence run), numba lowering; integer overflow and '
-                'dtype casts are not modelled (values < 2^53).  Theorems are closed under the global context.',
-    },
-}
-
 _PENDING = 'check not built yet in this session (planned: DESIGN.md §5); not claimed until its proof and correspondence run exist'
 NOT_APPLICABLE = {f'C{i:02d}': _PENDING for i in range(1, 21)}
